@@ -2136,6 +2136,717 @@ theorem orderKeysLoop_valid (W : World) (t : Table) (M : Str) (hM : M ≠ []) (r
         · exact List.mem_append.mpr (Or.inr (hcov r (by simp [keysL, h.2]) h.1))
     · exact ih' o hv
 
+/-! ## the fuel of the order walk is never used up -/
+
+/-- pigeonhole: a duplicate-free list inside `K` is no longer than `K` -/
+theorem nodup_subset_length {α : Type} [DecidableEq α] (l : List α) : ∀ K : List α, l.Nodup → (∀ x ∈ l, x ∈ K) → l.length ≤ K.length := by
+  induction l with
+  | nil => intro K _ _; simp
+  | cons x xs ih =>
+    intro K hn hs
+    simp only [List.nodup_cons] at hn
+    have hx : x ∈ K := hs x (by simp)
+    have := ih (K.erase x) hn.2 (by
+      intro y hy
+      have hne : y ≠ x := fun h => hn.1 (h ▸ hy)
+      exact (List.mem_erase_of_ne hne).mpr (hs y (by simp [hy])))
+    rw [List.length_erase_of_mem hx] at this
+    have hpos : 0 < K.length := List.length_pos_of_mem hx
+    simp only [List.length_cons]
+    omega
+
+theorem entryFirst_congr (look : Str → Option Forest) (sub sub' : Forest → List Str → List Str → List Str)
+    (k : Str) (o res : List Str)
+    (h : ∀ ea o', look k = some ea → k ∉ res → sub ea o' (res ++ [k]) = sub' ea o' (res ++ [k])) :
+    entryFirst look sub k o res = entryFirst look sub' k o res := by
+  unfold entryFirst
+  cases hl : look k with
+  | none => rfl
+  | some ea =>
+    by_cases hr : k ∈ res
+    · simp [hr]
+    · simp only [List.contains_iff_mem, hr, if_false]
+      exact h ea o hl hr
+
+mutual
+/-- the walk uses `sub` only on the attributes of table entries whose key is not being expanded -/
+theorem orderNode_congr (look : Str → Option Forest) (sub sub' : Forest → List Str → List Str → List Str) (fm : Option Str)
+    (res : List Str)
+    (h : ∀ k ea o', look k = some ea → k ∉ res → sub ea o' (res ++ [k]) = sub' ea o' (res ++ [k]))
+    (a : Attr) (o : List Str) : orderNode look sub fm a o res = orderNode look sub' fm a o res := by
+  match a with
+  | .mk k cs =>
+    simp only [orderNode]
+    rw [orderList_congr look sub sub' fm res h cs o,
+      entryFirst_congr look sub sub' k _ res (fun ea o' => h k ea o')]
+theorem orderList_congr (look : Str → Option Forest) (sub sub' : Forest → List Str → List Str → List Str) (fm : Option Str)
+    (res : List Str)
+    (h : ∀ k ea o', look k = some ea → k ∉ res → sub ea o' (res ++ [k]) = sub' ea o' (res ++ [k]))
+    (cs : List Attr) (o : List Str) : orderList look sub fm cs o res = orderList look sub' fm cs o res := by
+  match cs with
+  | [] => rfl
+  | a :: rest =>
+    simp only [orderList]
+    rw [orderNode_congr look sub sub' fm res h a o, orderList_congr look sub sub' fm res h rest _]
+end
+
+/-- with `d` table keys not yet in `resolving`, any two fuels above `d` give the same walk -/
+theorem orderFuel_stable (look : Str → Option Forest) (fm : Option Str) (K : List Str)
+    (hK : ∀ k ea, look k = some ea → k ∈ K) (d : Nat) :
+    ∀ (res : List Str), res.Nodup → (∀ r ∈ res, r ∈ K) → K.length ≤ res.length + d →
+      ∀ n m, d + 1 ≤ n → d + 1 ≤ m → ∀ f o, orderFuel look fm n f o res = orderFuel look fm m f o res := by
+  induction d with
+  | zero =>
+    intro res hn hs hlen n m hn' hm' f o
+    cases n with
+    | zero => omega
+    | succ n =>
+      cases m with
+      | zero => omega
+      | succ m =>
+        simp only [orderFuel]
+        apply orderList_congr
+        intro k ea o' hl hk
+        exfalso
+        have hnd : (res ++ [k]).Nodup := by
+          rw [List.nodup_append]
+          refine ⟨hn, by simp, ?_⟩
+          intro x hx y hy
+          simp only [List.mem_singleton] at hy
+          subst hy
+          intro he; subst he; exact hk hx
+        have := nodup_subset_length (res ++ [k]) K hnd (by
+          intro x hx
+          rcases List.mem_append.mp hx with h | h
+          · exact hs x h
+          · simp only [List.mem_singleton] at h; rw [h]; exact hK k ea hl)
+        simp at this
+        omega
+  | succ d ih =>
+    intro res hn hs hlen n m hn' hm' f o
+    cases n with
+    | zero => omega
+    | succ n =>
+      cases m with
+      | zero => omega
+      | succ m =>
+        simp only [orderFuel]
+        apply orderList_congr
+        intro k ea o' hl hk
+        have hnd : (res ++ [k]).Nodup := by
+          rw [List.nodup_append]
+          refine ⟨hn, by simp, ?_⟩
+          intro x hx y hy
+          simp only [List.mem_singleton] at hy
+          subst hy
+          intro he; subst he; exact hk hx
+        apply ih (res ++ [k]) hnd
+        · intro x hx
+          rcases List.mem_append.mp hx with h | h
+          · exact hs x h
+          · simp only [List.mem_singleton] at h; rw [h]; exact hK k ea hl
+        · simp; omega
+        · omega
+        · omega
+
+theorem entryAttrs_key (t : Table) (k : Str) (ea : Forest) (h : t.entryAttrs k = some ea) : k ∈ t.items.map Prod.fst := by
+  unfold Table.entryAttrs at h
+  cases hg : dictGet? t.items k with
+  | none => rw [hg] at h; cases h
+  | some s => exact List.mem_map.mpr ⟨(k, s), mem_of_dictGet _ _ _ hg, rfl⟩
+
+/-- **fuel sufficiency, for every table** (also with class entries that refer to themselves or to each other): every expansion
+    adds a new table key to `resolving`, so more fuel than `number of keys + 1` never changes the walk -/
+theorem orderFuel_sufficient (t : Table) (fm : Option Str) (n : Nat) (hn : t.items.length + 1 ≤ n) (f : Forest) (o : List Str) :
+    orderFuel t.entryAttrs fm n f o [] = orderFuel t.entryAttrs fm (t.items.length + 1) f o [] := by
+  apply orderFuel_stable t.entryAttrs fm (t.items.map Prod.fst) (entryAttrs_key t) t.items.length [] (by simp) (by simp) (by simp) n _ hn (Nat.le_refl _)
+
+/-! ## an importable order is a rank: cyclic references cannot be imported in any order -/
+
+theorem importable_rank (d : List (Str × Row)) :
+    ∀ avail, RefsAvail avail d → (∀ kr ∈ d, kr.1 ∉ avail) → (d.map Prod.fst).Nodup →
+      ∃ rank : Str → Nat, ∀ kr ∈ d, ∀ r ∈ rowRefs kr.2, r ∈ d.map Prod.fst → rank r < rank kr.1 := by
+  induction d with
+  | nil => intro _ _ _ _; exact ⟨fun _ => 0, by simp⟩
+  | cons x rest ih =>
+    obtain ⟨k, row⟩ := x
+    intro avail ha hd hn
+    simp only [RefsAvail] at ha
+    simp only [List.map_cons, List.nodup_cons] at hn
+    obtain ⟨rank', hr'⟩ := ih (avail ++ [k]) ha.2 (by
+      intro kr hkr hmem
+      rcases List.mem_append.mp hmem with h | h
+      · exact hd kr (by simp [hkr]) h
+      · simp only [List.mem_singleton] at h
+        exact hn.1 (by rw [← h]; exact List.mem_map_of_mem hkr)) hn.2
+    refine ⟨fun x => if x = k then 0 else rank' x + 1, ?_⟩
+    intro kr hkr r hr hmem
+    rcases List.mem_cons.mp hkr with h | h
+    · -- the first row refers to available keys only, none of which is imported
+      subst h
+      exfalso
+      have hav := ha.1 r hr
+      simp only [List.map_cons, List.mem_cons] at hmem
+      rcases hmem with h' | h'
+      · exact hd (k, row) (by simp) (by rw [← h']; exact hav)
+      · obtain ⟨kr', hkr', he⟩ := List.mem_map.mp h'
+        exact hd kr' (by simp [hkr']) (by rw [he]; exact hav)
+    · have hne : kr.1 ≠ k := fun he => hn.1 (by rw [← he]; exact List.mem_map_of_mem h)
+      simp only [hne, if_false]
+      by_cases hrk : r = k
+      · simp [hrk]
+      · simp only [hrk, if_false]
+        have : r ∈ rest.map Prod.fst := by
+          simp only [List.map_cons, List.mem_cons] at hmem
+          rcases hmem with h' | h'
+          · exact absurd h' hrk
+          · exact h'
+        have := hr' kr h r hr this
+        omega
+
+/-- two rows that refer to each other cannot both be imported, in whatever order they are listed -/
+theorem mutual_refs_unimportable (d : List (Str × Row)) (avail : List Str) (k1 k2 : Str) (r1 r2 : Row)
+    (h1 : (k1, r1) ∈ d) (h2 : (k2, r2) ∈ d) (h12 : k2 ∈ rowRefs r1) (h21 : k1 ∈ rowRefs r2)
+    (hd : ∀ kr ∈ d, kr.1 ∉ avail) (hn : (d.map Prod.fst).Nodup) : ¬ RefsAvail avail d := by
+  intro ha
+  obtain ⟨rank, hr⟩ := importable_rank d avail ha hd hn
+  have a := hr (k1, r1) h1 k2 h12 (List.mem_map.mpr ⟨(k2, r2), h2, rfl⟩)
+  have b := hr (k2, r2) h2 k1 h21 (List.mem_map.mpr ⟨(k1, r1), h1, rfl⟩)
+  simp only at a b
+  omega
+
+/-! ## `_deserialize_attrs` on a prefix-closed dict never touches an attribute object of a table entry -/
+
+/-- the index walk `own[i₀].own[i₁]…` from a node succeeds and ends on a node that has own attributes -/
+def NonEmptyNode : RNode → Path → Prop
+  | .mk _ own _, [] => own ≠ []
+  | .mk _ own _, i :: rest => ∃ c, own[i]? = some c ∧ NonEmptyNode c rest
+
+def NonEmptyAt (attrs : List RNode) : Path → Prop
+  | [] => True
+  | i :: rest => ∃ a, attrs[i]? = some a ∧ NonEmptyNode a rest
+
+theorem extendNode_not_shared (new : List RNode) (q : Path) :
+    ∀ a : RNode, (∀ y, y <+: q → y ≠ q → NonEmptyNode a y) → extendNode new q a ≠ .error .sharedEntry := by
+  induction q with
+  | nil =>
+    intro a _
+    obtain ⟨k, own, inh⟩ := a
+    simp only [extendNode]
+    split <;> simp
+  | cons j rest ih =>
+    intro a h
+    obtain ⟨k, own, inh⟩ := a
+    have hown : own ≠ [] := by
+      have := h [] (List.nil_prefix) (by simp)
+      simpa [NonEmptyNode] using this
+    have hemp : own.isEmpty = false := by
+      cases own with
+      | nil => exact absurd rfl hown
+      | cons _ _ => rfl
+    simp only [extendNode, hemp, Bool.false_eq_true, if_false]
+    cases hj : own[j]? with
+    | none => simp
+    | some c =>
+      simp only
+      have hc := ih c (by
+        intro y hy hne
+        have := h (j :: y) (by simpa using hy) (by simpa using hne)
+        simp only [NonEmptyNode, hj, Option.some.injEq] at this
+        obtain ⟨c', hc', hn⟩ := this
+        rw [hc']; exact hn)
+      cases he : extendNode new rest c with
+      | ok c' => simp
+      | error e =>
+        simp only
+        intro hcontra
+        cases hcontra
+        exact hc he
+
+theorem extendAt_not_shared (new : List RNode) (q : Path) (attrs : List RNode)
+    (h : ∀ y, y <+: q → y ≠ q → y ≠ [] → NonEmptyAt attrs y) : extendAt new q attrs ≠ .error .sharedEntry := by
+  cases q with
+  | nil => simp [extendAt]
+  | cons i rest =>
+    simp only [extendAt]
+    cases hi : attrs[i]? with
+    | none => simp
+    | some a =>
+      simp only
+      have ha := extendNode_not_shared new rest a (by
+        intro y hy hne
+        have := h (i :: y) (by simpa using hy) (by simpa using hne) (by simp)
+        simp only [NonEmptyAt, hi, Option.some.injEq] at this
+        obtain ⟨a', ha', hn⟩ := this
+        rw [ha']; exact hn)
+      cases he : extendNode new rest a with
+      | ok a' => simp
+      | error e =>
+        simp only
+        intro hcontra
+        cases hcontra
+        exact ha he
+
+theorem extendNode_preserves (new : List RNode) (hnew : new ≠ []) (q : Path) :
+    ∀ a a' : RNode, extendNode new q a = .ok a' → NonEmptyNode a' q ∧ ∀ z, NonEmptyNode a z → NonEmptyNode a' z := by
+  induction q with
+  | nil =>
+    intro a a' h
+    obtain ⟨k, own, inh⟩ := a
+    simp only [extendNode] at h
+    split at h
+    · rename_i hemp
+      cases h
+      have hown : own = [] := by simpa using hemp
+      subst hown
+      refine ⟨by simpa [NonEmptyNode] using hnew, ?_⟩
+      intro z hz
+      cases z with
+      | nil => simp [NonEmptyNode] at hz
+      | cons i r => simp [NonEmptyNode] at hz
+    · cases h
+  | cons j rest ih =>
+    intro a a' h
+    obtain ⟨k, own, inh⟩ := a
+    simp only [extendNode] at h
+    split at h
+    · split at h <;> cases h
+    · rename_i hemp
+      cases hj : own[j]? with
+      | none => rw [hj] at h; cases h
+      | some c =>
+        rw [hj] at h
+        simp only at h
+        cases he : extendNode new rest c with
+        | error e => rw [he] at h; cases h
+        | ok c' =>
+          rw [he] at h
+          cases h
+          obtain ⟨h1, h2⟩ := ih c c' he
+          have hjlt : j < own.length := by
+            have := List.getElem?_eq_some_iff.mp hj
+            exact this.1
+          refine ⟨⟨c', by simp [hjlt], h1⟩, ?_⟩
+          intro z hz
+          cases z with
+          | nil =>
+            simp only [NonEmptyNode] at hz ⊢
+            intro hcontra
+            have := congrArg List.length hcontra
+            simp at this
+            exact hz this
+          | cons i r =>
+            simp only [NonEmptyNode] at hz ⊢
+            obtain ⟨x, hx, hn⟩ := hz
+            by_cases hij : j = i
+            · subst hij
+              rw [hj] at hx
+              cases hx
+              exact ⟨c', by simp [hjlt], h2 r hn⟩
+            · exact ⟨x, by simp [hij, hx], hn⟩
+
+theorem extendAt_preserves (new : List RNode) (hnew : new ≠ []) (q : Path) (hq : q ≠ []) (attrs attrs' : List RNode)
+    (h : extendAt new q attrs = .ok attrs') : NonEmptyAt attrs' q ∧ ∀ z, NonEmptyAt attrs z → NonEmptyAt attrs' z := by
+  cases q with
+  | nil => exact absurd rfl hq
+  | cons i rest =>
+    simp only [extendAt] at h
+    cases hi : attrs[i]? with
+    | none => rw [hi] at h; cases h
+    | some a =>
+      rw [hi] at h
+      simp only at h
+      cases he : extendNode new rest a with
+      | error e => rw [he] at h; cases h
+      | ok a' =>
+        rw [he] at h
+        cases h
+        obtain ⟨h1, h2⟩ := extendNode_preserves new hnew rest a a' he
+        have hilt : i < attrs.length := (List.getElem?_eq_some_iff.mp hi).1
+        refine ⟨⟨a', by simp [hilt], h1⟩, ?_⟩
+        intro z hz
+        cases z with
+        | nil => trivial
+        | cons j r =>
+          simp only [NonEmptyAt] at hz ⊢
+          obtain ⟨x, hx, hn⟩ := hz
+          by_cases hij : i = j
+          · subst hij
+            rw [hi] at hx
+            cases hx
+            exact ⟨a', by simp [hilt], h2 r hn⟩
+          · exact ⟨x, by simp [hij, hx], hn⟩
+
+theorem nonEmptyAt_append (attrs new : List RNode) (z : Path) (h : NonEmptyAt attrs z) : NonEmptyAt (attrs ++ new) z := by
+  cases z with
+  | nil => trivial
+  | cons i r =>
+    simp only [NonEmptyAt] at h ⊢
+    obtain ⟨a, ha, hn⟩ := h
+    have hilt : i < attrs.length := (List.getElem?_eq_some_iff.mp ha).1
+    exact ⟨a, by rw [List.getElem?_append_left hilt]; exact ha, hn⟩
+
+theorem stackAll_ne_nil (look : Lookup) (g : Flat) (hg : g ≠ []) (new : List RNode) (h : stackAll look g = .ok new) : new ≠ [] := by
+  cases g with
+  | nil => exact absurd rfl hg
+  | cons x rest =>
+    obtain ⟨p, k⟩ := x
+    simp only [stackAll] at h
+    cases hl : look k with
+    | none => rw [hl] at h; cases h
+    | some v =>
+      rw [hl] at h
+      obtain ⟨tk, inh⟩ := v
+      simp only at h
+      cases hs : stackAll look rest with
+      | error e => rw [hs] at h; cases h
+      | ok rs => rw [hs] at h; cases h; simp
+
+/-- every path of the dict with at least two components has its parent path in the dict (what `serialize` produces) -/
+def PrefixClosed (data : Flat) : Prop :=
+  ∀ pk ∈ data, 2 ≤ pk.1.length → parent pk.1 ∈ data.map Prod.fst
+
+theorem prefix_of_dropLast {α : Type} (y p : List α) (h : y <+: p) (hne : y ≠ p) : y <+: p.dropLast := by
+  obtain ⟨t, ht⟩ := h
+  cases ht' : t.reverse with
+  | nil =>
+    have : t = [] := by simpa using ht'
+    subst this
+    simp at ht
+    exact absurd ht hne
+  | cons z zs =>
+    have : t = zs.reverse ++ [z] := by
+      have := congrArg List.reverse ht'
+      simpa using this
+    subst this
+    refine ⟨zs.reverse, ?_⟩
+    rw [← ht, ← List.append_assoc, List.dropLast_concat]
+
+theorem prefixClosed_prefixes (data : Flat) (hp : PrefixClosed data) :
+    ∀ n (p : Path), p.length = n → p ∈ data.map Prod.fst → ∀ y, y <+: p → y ≠ [] → y ∈ data.map Prod.fst := by
+  intro n
+  induction n with
+  | zero =>
+    intro p hl _ y hy hne
+    have : p = [] := List.length_eq_zero_iff.mp hl
+    subst this
+    exact absurd (List.prefix_nil.mp hy) hne
+  | succ n ih =>
+    intro p hl hmem y hy hne
+    by_cases he : y = p
+    · rw [he]; exact hmem
+    · have hy' := prefix_of_dropLast y p hy he
+      have hlen : 2 ≤ p.length := by
+        have h1 : y.length ≤ p.dropLast.length := hy'.length_le
+        have h2 : 0 < y.length := List.length_pos_iff.mpr hne
+        simp at h1
+        omega
+      obtain ⟨pk, hpk, hpe⟩ := List.mem_map.mp hmem
+      have := hp pk hpk (by rw [hpe]; exact hlen)
+      rw [hpe] at this
+      exact ih p.dropLast (by simp; omega) this y hy' hne
+
+/-- the paths whose group has been processed: the parent of each has own attributes by now -/
+def DoneInv (attrs : List RNode) (done : Flat) : Prop :=
+  ∀ x ∈ done, 2 ≤ x.1.length → NonEmptyAt attrs (parent x.1)
+
+/-- every path that a group's walk passes through was processed in an earlier group -/
+def Ready : Flat → List Flat → Prop
+  | _, [] => True
+  | done, g :: rest =>
+    (∀ p ∈ g.head?, ∀ y, y <+: parent p.1 → 2 ≤ y.length → y ∈ done.map Prod.fst) ∧
+    g ≠ [] ∧ (∀ x ∈ g, parent x.1 = groupParent g) ∧ Ready (done ++ g) rest
+
+theorem stepGroups_not_shared (look : Lookup) (gs : List Flat) :
+    ∀ (attrs : List RNode) (done : Flat), DoneInv attrs done → Ready done gs →
+      stepGroups look gs attrs ≠ .error .sharedEntry := by
+  induction gs with
+  | nil => intro attrs done _ _; simp [stepGroups]
+  | cons g rest ih =>
+    intro attrs done hinv hready
+    obtain ⟨hneed, hgne, hsame, hrest⟩ := hready
+    cases g with
+    | nil => exact absurd rfl hgne
+    | cons x xs =>
+      obtain ⟨p, k⟩ := x
+      simp only [stepGroups, stepGroup]
+      cases hst : stackAll look ((p, k) :: xs) with
+      | error e =>
+        simp only
+        intro hc; cases hc
+        -- stackAll only fails with SymbolNotDefined
+        have : ∀ (g : Flat) e, stackAll look g = .error e → e = .symbolNotDefined := by
+          intro g
+          induction g with
+          | nil => intro e h; simp [stackAll] at h
+          | cons y ys ihg =>
+            intro e h
+            obtain ⟨py, ky⟩ := y
+            simp only [stackAll] at h
+            cases hl : look ky with
+            | none => rw [hl] at h; cases h; rfl
+            | some v =>
+              rw [hl] at h
+              obtain ⟨tk, inh⟩ := v
+              simp only at h
+              cases hs : stackAll look ys with
+              | error e2 => rw [hs] at h; cases h; exact ihg _ hs
+              | ok rs => rw [hs] at h; cases h
+        have := this _ _ hst
+        cases this
+      | ok new =>
+        simp only
+        have hnew := stackAll_ne_nil look _ (by simp) new hst
+        by_cases hlen : p.length ≤ 1
+        · simp only [hlen, if_true]
+          apply ih (attrs ++ new) (done ++ (p, k) :: xs) _ hrest
+          intro x hx hx2
+          rcases List.mem_append.mp hx with h | h
+          · exact nonEmptyAt_append _ _ _ (hinv x h hx2)
+          · exfalso
+            have := hsame x h
+            simp only [groupParent] at this
+            have hl : (parent x.1).length = (parent p).length := by rw [this]
+            simp only [parent, List.length_dropLast] at hl
+            omega
+        · simp only [hlen, if_false]
+          have hq : parent p ≠ [] := by
+            intro h
+            have := congrArg List.length h
+            simp [parent] at this
+            omega
+          have hns : extendAt new (parent p) attrs ≠ .error .sharedEntry := by
+            apply extendAt_not_shared
+            intro y hy hne hyne
+            -- the next longer prefix of the parent path was processed before
+            obtain ⟨t, ht⟩ := hy
+            cases t with
+            | nil => simp at ht; exact absurd ht hne
+            | cons i t' =>
+              have hpre : (y ++ [i]) <+: parent p := ⟨t', by rw [← ht]; simp⟩
+              have hmem := hneed (p, k) (by simp) (y ++ [i]) hpre (by
+                have : 0 < y.length := List.length_pos_iff.mpr hyne
+                simp; omega)
+              obtain ⟨x, hx, hxe⟩ := List.mem_map.mp hmem
+              have := hinv x hx (by rw [hxe]; have : 0 < y.length := List.length_pos_iff.mpr hyne; simp; omega)
+              rw [hxe, parent_snoc] at this
+              exact this
+          cases hext : extendAt new (parent p) attrs with
+          | error e =>
+            simp only
+            intro hc; cases hc
+            exact hns hext
+          | ok attrs' =>
+            simp only
+            obtain ⟨h1, h2⟩ := extendAt_preserves new hnew (parent p) hq attrs attrs' hext
+            apply ih attrs' (done ++ (p, k) :: xs) _ hrest
+            intro x hx hx2
+            rcases List.mem_append.mp hx with h | h
+            · exact h2 _ (hinv x h hx2)
+            · have := hsame x h
+              simp only [groupParent] at this
+              rw [this]; exact h1
+
+/-! ## the groups of a depth-sorted prefix-closed dict are `Ready` -/
+
+theorem groupsFuel_ne_nil (n : Nat) : ∀ l : Flat, ∀ g ∈ groupsFuel n l, g ≠ [] := by
+  induction n with
+  | zero => intro l g hg; simp [groupsFuel] at hg
+  | succ n ih =>
+    intro l g hg
+    cases l with
+    | nil => simp [groupsFuel] at hg
+    | cons x rest =>
+      simp only [groupsFuel] at hg
+      rcases List.mem_cons.mp hg with h | h
+      · rw [h]; simp
+      · exact ih _ g h
+
+theorem ready_of_sorted (gs : List Flat) :
+    ∀ done : Flat, (done ++ gs.flatten).Pairwise (fun a b => depth a.1 ≤ depth b.1) →
+      (∀ g ∈ gs, g ≠ [] ∧ ∀ x ∈ g, parent x.1 = groupParent g) →
+      (∀ x ∈ (done ++ gs.flatten).map Prod.fst, ∀ y, y <+: x → y ≠ [] → y ∈ (done ++ gs.flatten).map Prod.fst) →
+      Ready done gs := by
+  induction gs with
+  | nil => intro _ _ _ _; trivial
+  | cons g rest ih =>
+    intro done hs hg hpc
+    obtain ⟨hgne, hsame⟩ := hg g (by simp)
+    refine ⟨?_, hgne, hsame, ?_⟩
+    · intro p hp y hy hy2
+      cases g with
+      | nil => exact absurd rfl hgne
+      | cons x xs =>
+        simp only [List.head?_cons, Option.mem_def, Option.some.injEq] at hp
+        subst hp
+        obtain ⟨pp, k⟩ := x
+        have hyne : y ≠ [] := by intro h; rw [h] at hy2; simp at hy2
+        have hylen : y.length ≤ (parent pp).length := hy.length_le
+        have hplen : (parent pp).length = pp.length - 1 := by simp [parent]
+        have hppre : parent pp <+: pp := by
+          simp only [parent]; exact List.dropLast_prefix pp
+        have hmem : y ∈ (done ++ (((pp, k) :: xs) :: rest).flatten).map Prod.fst :=
+          hpc pp (by simp) y (hy.trans hppre) hyne
+        simp only [List.flatten_cons, List.map_append, List.mem_append] at hmem
+        rcases hmem with h | h | h
+        · exact h
+        · exfalso
+          obtain ⟨z, hz, hze⟩ := List.mem_map.mp h
+          have := hsame z hz
+          simp only [groupParent] at this
+          have hl : (parent z.1).length = (parent pp).length := by rw [this]
+          rw [hze] at hl
+          have hyl : (parent y).length = y.length - 1 := by simp [parent]
+          omega
+        · exfalso
+          obtain ⟨z, hz, hze⟩ := List.mem_map.mp h
+          simp only [List.flatten_cons] at hs
+          have hs2 := (List.pairwise_append.mp hs).2.1
+          have hs3 := (List.pairwise_append.mp hs2).2.2 (pp, k) (by simp) z hz
+          simp only [depth, hze] at hs3
+          omega
+    · apply ih (done ++ g)
+      · simpa [List.append_assoc] using hs
+      · intro g' hg'; exact hg g' (by simp [hg'])
+      · simpa [List.append_assoc] using hpc
+
+/-- `_deserialize_attrs` on a prefix-closed dict never walks into (and so never extends in place) an attribute object that
+    belongs to a table entry: every node it extends was created by `stack()` in this very call -/
+theorem rebuild_not_shared (look : Lookup) (data : Flat) (hp : PrefixClosed data) :
+    rebuild look data ≠ .error .sharedEntry := by
+  unfold rebuild
+  have hspec := groupsFuel_spec (sortByDepth data).length (sortByDepth data) (Nat.le_refl _)
+  apply stepGroups_not_shared look _ [] [] (by intro x hx; simp at hx)
+  apply ready_of_sorted
+  · simp only [List.nil_append]
+    unfold groups
+    rw [hspec.1]
+    exact sortByDepth_sorted data
+  · intro g hg
+    exact ⟨groupsFuel_ne_nil _ _ g hg, hspec.2 g hg⟩
+  · simp only [List.nil_append]
+    unfold groups
+    rw [hspec.1]
+    intro x hx y hy hyne
+    have hperm := sortByDepth_perm data
+    have hx' : x ∈ data.map Prod.fst := by
+      obtain ⟨z, hz, hze⟩ := List.mem_map.mp hx
+      exact List.mem_map.mpr ⟨z, hperm.mem_iff.mp hz, hze⟩
+    have := prefixClosed_prefixes data hp x.length x rfl hx' y hy hyne
+    obtain ⟨z, hz, hze⟩ := List.mem_map.mp this
+    exact List.mem_map.mpr ⟨z, hperm.mem_iff.mpr hz, hze⟩
+
+mutual
+theorem flatNode_prefixClosed (a : Attr) : ∀ pk ∈ flatNode a, 1 ≤ pk.1.length → parent pk.1 ∈ (flatNode a).map Prod.fst := by
+  match a with
+  | .mk k cs =>
+    intro pk hpk hlen
+    simp only [flatNode, List.mem_cons] at hpk
+    rcases hpk with h | h
+    · rw [h] at hlen; simp at hlen
+    · simp only [flatNode, List.map_cons, List.mem_cons]
+      by_cases h1 : pk.1.length = 1
+      · left
+        simp only [parent]
+        apply List.length_eq_zero_iff.mp
+        simp [h1]
+      · right
+        exact flatList_prefixClosed 0 cs pk h (by omega)
+theorem flatList_prefixClosed (i : Nat) (cs : List Attr) : ∀ pk ∈ flatList i cs, 2 ≤ pk.1.length → parent pk.1 ∈ (flatList i cs).map Prod.fst := by
+  match cs with
+  | [] => simp [flatList]
+  | a :: rest =>
+    intro pk hpk hlen
+    simp only [flatList, List.mem_append, List.mem_map] at hpk
+    simp only [flatList, List.map_append, List.mem_append]
+    rcases hpk with ⟨z, hz, hze⟩ | h
+    · left
+      have := flatNode_prefixClosed a z hz (by rw [← hze] at hlen; simp at hlen; omega)
+      obtain ⟨w, hw, hwe⟩ := List.mem_map.mp this
+      refine List.mem_map.mpr ⟨(i :: w.1, w.2), List.mem_map.mpr ⟨w, hw, rfl⟩, ?_⟩
+      rw [← hze]
+      simp only [parent] at hwe ⊢
+      rw [hwe]
+      have hz1 : z.1 ≠ [] := by
+        intro h0; rw [← hze, h0] at hlen; simp at hlen
+      rw [List.dropLast_cons_of_ne_nil hz1]
+    · right
+      exact flatList_prefixClosed (i + 1) rest pk h hlen
+end
+
+theorem flatten_prefixClosed (f : Forest) : PrefixClosed (flatten f) :=
+  fun pk hpk hlen => flatList_prefixClosed 0 f pk hpk hlen
+
+/-! ## shared objects: `expand` ignores identity; `to_temporary` makes new objects at every depth -/
+
+mutual
+theorem expandINode_erase (p : Path) (a : IAttr) : expandINode p a = expandNode p (eraseN a) := by
+  match a with
+  | .mk i k cs => simp only [expandINode, eraseN, expandNode, expandIElems_erase p 0 cs]
+theorem expandIElems_erase (p : Path) (i : Nat) (cs : List IAttr) (entries : Flat) :
+    expandIElems p i cs entries = expandElems p i (eraseL cs) entries := by
+  match cs with
+  | [] => rfl
+  | a :: rest => simp only [expandIElems, eraseL, expandElems, expandINode_erase (p ++ [i]) a, expandIElems_erase p (i + 1) rest]
+end
+
+theorem expandI_erase (f : IForest) : expandI f = expand (eraseL f) := expandIElems_erase [] 0 f []
+
+mutual
+theorem toTemp_spec (a : IAttr) (n : Nat) :
+    eraseN (toTemp a n).1 = eraseN a ∧ n ≤ (toTemp a n).2 ∧ ∀ i ∈ idsN (toTemp a n).1, n ≤ i ∧ i < (toTemp a n).2 := by
+  match a with
+  | .mk i k cs =>
+    obtain ⟨h1, h2, h3⟩ := toTempL_spec cs (n + 1)
+    simp only [toTemp, eraseN, idsN, List.mem_cons]
+    refine ⟨by rw [h1], by omega, ?_⟩
+    intro j hj
+    rcases hj with h | h
+    · omega
+    · have := h3 j h; omega
+theorem toTempL_spec (cs : List IAttr) (n : Nat) :
+    eraseL (toTempL cs n).1 = eraseL cs ∧ n ≤ (toTempL cs n).2 ∧ ∀ i ∈ idsL (toTempL cs n).1, n ≤ i ∧ i < (toTempL cs n).2 := by
+  match cs with
+  | [] => simp [toTempL, eraseL, idsL]
+  | a :: rest =>
+    obtain ⟨a1, a2, a3⟩ := toTemp_spec a n
+    obtain ⟨r1, r2, r3⟩ := toTempL_spec rest (toTemp a n).2
+    simp only [toTempL, eraseL, idsL, List.mem_append]
+    refine ⟨by rw [a1, r1], by omega, ?_⟩
+    intro j hj
+    rcases hj with h | h
+    · have := a3 j h; omega
+    · have := r3 j h; omega
+end
+
+mutual
+theorem setSlot_noop (target j : Nat) (v : IAttr) (a : IAttr) (h : target ∉ idsN a) : setSlot target j v a = a := by
+  match a with
+  | .mk i k cs =>
+    simp only [idsN, List.mem_cons, not_or] at h
+    have hi : ¬ i = target := fun he => h.1 he.symm
+    simp only [setSlot, hi, if_false, setSlotL_noop target j v cs h.2]
+theorem setSlotL_noop (target j : Nat) (v : IAttr) (cs : List IAttr) (h : target ∉ idsL cs) : setSlotL target j v cs = cs := by
+  match cs with
+  | [] => rfl
+  | a :: rest =>
+    simp only [idsL, List.mem_append, not_or] at h
+    simp only [setSlotL, setSlot_noop target j v a h.1, setSlotL_noop target j v rest h.2]
+end
+
+/-- a sequence of writes, each into the attribute list of one object -/
+def applyWrites : List (Nat × Nat × IAttr) → IAttr → IAttr
+  | [], a => a
+  | w :: ws, a => applyWrites ws (setSlot w.1 w.2.1 w.2.2 a)
+
+theorem applyWrites_noop (ws : List (Nat × Nat × IAttr)) (a : IAttr) (h : ∀ w ∈ ws, w.1 ∉ idsN a) : applyWrites ws a = a := by
+  induction ws with
+  | nil => rfl
+  | cons w rest ih =>
+    simp only [applyWrites]
+    rw [setSlot_noop w.1 w.2.1 w.2.2 a (h w (by simp))]
+    exact ih (fun w' hw' => h w' (by simp [hw']))
+
 /-! ## decision procedures for the recursive invariants (used by the concrete examples) -/
 
 def decRefsAvail : (d : List (Str × Row)) → (avail : List Str) → Decidable (RefsAvail avail d)
